@@ -296,7 +296,36 @@ fn fading(v: &V, seed: u64, out: &mut TrialOut, rng: &mut Rng) {
     let mut st = seed.wrapping_mul(0x9E37) | 1;
     // the tail stays inside half the range the prefixes used: an early extreme that is never
     // forgotten (an all-time instead of a window extremum) is then never overwritten by the tail
-    let tail: Vec<f64> = (0..tail_len).map(|t| 0.5 * bounded_input(Wave::Noise, t, &mut st)).collect();
+    // three kinds of tail: noise; sample-and-hold noise (every value repeated 1..4 times: a filter
+    // that skips work "when nothing changed" must still let its transient die); noise, a long
+    // constant stretch, noise again
+    let tail_kind = rng.below(3);
+    let mut tail: Vec<f64> = Vec::with_capacity(tail_len);
+    let mut held = 0.0;
+    let mut hold = 0usize;
+    for t in 0..tail_len {
+        let fresh = 0.5 * bounded_input(Wave::Noise, t, &mut st);
+        let v = match tail_kind {
+            0 => fresh,
+            1 => {
+                if hold == 0 {
+                    held = fresh;
+                    hold = 1 + (t * 7 + 3) % 4;
+                }
+                hold -= 1;
+                held
+            }
+            _ => {
+                if t > tail_len / 5 && t < tail_len * 4 / 5 {
+                    0.25
+                } else {
+                    fresh
+                }
+            }
+        };
+        tail.push(v);
+    }
+    out.count(&format!("fading_tail_kind_{}", tail_kind), 1);
     // reference denominators of the ratio views on instance A's complete history are not needed:
     // after the merge both instances see the same tail; use the tail alone for conditioning
     let dens: Option<Vec<f64>> = v.case.as_ref().filter(|c| matches!(c.vi, 3 | 5 | 6)).map(|c| reference::<f64>(c, &tail).into_iter().map(|(_, d)| d.unwrap_or(1.0)).collect());
